@@ -1,6 +1,6 @@
 \* bounded instance of XoHybrid.tla as the quick tier runs it (vlib/hybrid.py writes the same text at run time)
 SPECIFICATION Spec
-CONSTANTS Scens = {1,2,3,4,5,6,7} MaxDepth = 4 MaxH = 3 Vals = {1} WSlots = {"a","x","arr"} Bufs = {1,2} Bug = FALSE
+CONSTANTS Scens = {1,2,3,4,5,6,7,8} MaxDepth = 4 MaxH = 3 Vals = {1} WSlots = {"a","x","arr"} Bufs = {1,2} Bug = FALSE
 INVARIANT Mirror
 INVARIANT CopyIndependent
 INVARIANT PartsInside
